@@ -14,6 +14,120 @@ CHECKS = {
         "Trusted: vlib/ref6.py reading of Draft 6 (cross-checked per case against jsonschema.Draft6Validator), comfortable number range, dialect-independent regex pool.",
         "DESIGN.md 4/C01",
     ),
+    "C02": (
+        "Hypothesis generation of multi-file $ref documents; round-trip/differential oracle: generated module text is compiled and exec'd in an empty namespace and each class compared (==, verdicts, read-back) with the directly parsed model",
+        "Generated-input search over non-recursive documents (local, cross-file, diamond $ref sharing; repeated, odd and missing titles; hostile descriptions): module executes with only its own imports, one class per distinct object schema in dependency order, classes equal and verdict-identical to the parsed ones.",
+        "Trusted: json_ref_dict resolution (documents served in memory through its public loader registry); agreement with the source schema follows from C01.",
+        "DESIGN.md 4/C02",
+    ),
+    "C03": (
+        "Hypothesis generation of element-tree recipes (DSL) and parsed schemas x extra definitions x values; oracle: JSON-serialisable, metaschema-valid, refs resolve, ref6(document, v) == element verdict",
+        "Generated-input search: serialize_json output is checked structurally and its meaning is compared value by value with the element tree through the reference validator.",
+        "Trusted: vlib/ref6.py; definition keys never alias a different reachable class; acyclic trees.",
+        "DESIGN.md 4/C03",
+    ),
+    "C04": (
+        "Hypothesis generation of container-biased schemas/recipes x accepted values; oracle: structural read-back of every input member through the public access paths plus nothing-invented check",
+        "Generated-input search: for every accepted value the returned model is walked through attribute/item access and compared member by member with the input (int->float tolerated only under number schemas).",
+        "Trusted: the read-back walker vlib/readback.py; values limited to depth<=4.",
+        "DESIGN.md 4/C04",
+    ),
+    "C05": (
+        "Hypothesis generation of object schemas with valid/invalid defaults; exhaustive enumeration of supplied-property subsets per schema; metamorphic oracle omitted == supplied-with-default, supplied never replaced",
+        "Generated-input search with exhaustive subset enumeration (<=2^4 per schema) over class-based and untyped objects, renamed and plain names, nested and class-level defaults.",
+        "Trusted: conversion of a default is observed through the property's own element (differential within the library, as the statement says).",
+        "DESIGN.md 4/C05",
+    ),
+    "C06": (
+        "Hypothesis generation of supported schemas; round-trip oracle: serialize(parse(materialize(serialize(parse(S))))) == serialize(parse(S)) and exec(serialize_python) classes == parsed classes",
+        "Generated-input search for the fixpoint property on the parser's image, through the documented materialize + title_labeller pipeline.",
+        "Trusted: json_ref_dict materialize; comparison is type-faithful, key order ignored, required compared as a set.",
+        "DESIGN.md 4/C06",
+    ),
+    "C07": (
+        "Hypothesis generation of default-carrying schema shapes x JSON defaults x hostile description strings; oracle: literal type-faithful equality at parse, serialize_json and executed serialize_python",
+        "Generated-input search over every shape a default can sit on and description alphabets with quotes, backslashes, newlines, non-ASCII.",
+        "Trusted: location-wise comparison of defaults in the normal form (composition restructuring is followed by the harness).",
+        "DESIGN.md 4/C07",
+    ),
+    "C08": (
+        "Hypothesis rule-based state machine over validation-call histories on recipe-built trees; invariant: tree == untouched twin, same repr/JSON/Python text/deep dump, input unchanged, repeat-equal",
+        "Stateful generated-history search: after every call every observable of the tree is compared with the initial snapshot and with an independently built twin.",
+        "Trusted: vlib/observe.py snapshot covers repr, both serialisers and a deep attribute dump of every reachable element and property.",
+        "DESIGN.md 4/C08",
+    ),
+    "C09": (
+        "Generated documents x PYTHONHASHSEED values x process instances; differential oracle: byte equality of generated module, JSON dump and class names across subprocesses (covering set of hash seeds + derived seeds)",
+        "Generated-input search across real subprocesses with different string-hash seeds, including the literal CLI.",
+        "Trusted: finite set of hash seeds (covering for small string sets + seeds derived from VERIF_SEED).",
+        "DESIGN.md 4/C09",
+    ),
+    "C10": (
+        "Hypothesis generation over the widened grammar (extreme numbers, deep nesting, odd Unicode, dunder names); oracle: exception-type allow-list + bounded-step termination; thorough adds coverage-guided atheris over the same test",
+        "Generated-input fuzzing of parse_element and element calls; anything other than returning, ValidationError/TypeError (calls) or SchemaParseError (parse) is a violation.",
+        "Trusted: recursion budget bound (depth<=40); RecursionError counted inconclusive; hang detector needs two confirmations.",
+        "DESIGN.md 4/C10",
+    ),
+    "C11": (
+        "Hypothesis generation of class dependency graphs with edges hidden in every keyword position; oracle: independent reachability/topological check on the recipe graph, SchemaParseError on reachable cycles, step-bounded termination",
+        "Generated-input search over DAGs and cyclic graphs (1-7 classes), edge wrappers of depth 1-3 over all 13 positions.",
+        "Trusted: own DFS over the generated graph; line-count step budget as termination detector.",
+        "DESIGN.md 4/C11",
+    ),
+    "C12": (
+        "Exhaustive enumeration of all 1,114,112 code points in five contexts + Hypothesis strings and sibling-name sets; oracle: str.isidentifier/keyword/reserved predicates, end-to-end usability through parse and generated code, injectivity",
+        "Exhaustive over the single-code-point sub-domain, generated search for longer names, sibling sets and titles.",
+        "Trusted: Python's own identifier/keyword predicates and compile().",
+        "DESIGN.md 4/C12",
+    ),
+    "C13": (
+        "Hypothesis rule-based state machine interleaving reconfiguration steps and validation calls; model-based oracle: fresh element built from the model configuration",
+        "Stateful generated-history search: after each reconfiguration the real element and a freshly built element with the same configuration must agree on verdict and result.",
+        "Trusted: recipe model of the configuration (vlib/recipes.py), only reconfiguration forms the docs name.",
+        "DESIGN.md 4/C13",
+    ),
+    "C14": (
+        "Hypothesis-generated schedules executed by an owned thread scheduler (sys.settrace baton, one runnable thread at a time) + free-running stress; oracle: sequential run of the same calls, tree snapshot unchanged",
+        "Schedule exploration at line granularity of pure-Python frames for 2-4 threads; deterministic function of (recipe, values, schedule).",
+        "Trusted: GIL-level atomicity of C operations; no claim for free-threaded builds.",
+        "DESIGN.md 4/C14",
+    ),
+    "C15": (
+        "Hypothesis generation of parent/child(/grandchild) class triples x values x operation orders; differential oracle: child == documented flat merge; parent snapshot invariant over the history",
+        "Generated-input and history search comparing the subclass with the equivalent flat class (verdicts, read-back, alpha-normalised JSON) and the parent before/after every step.",
+        "Trusted: the documented merge rule implemented in vlib/recipes.flat_class.",
+        "DESIGN.md 4/C15",
+    ),
+    "C16": (
+        "Hypothesis rule-based state machine over registration histories with a dictionary model of the registry; generated UUIDs (all 2^128 via integers) and RFC 3339 timestamps from the ABNF",
+        "Stateful model-based search for the registry semantics, generated-input search for the built-in checkers.",
+        "Trusted: RFC 3339 section 5.6 grammar generator; registry saved/restored per case.",
+        "DESIGN.md 4/C16",
+    ),
+    "C17": (
+        "Hypothesis generation of recipe pairs (identical builds / one-point mutants / parse round trips) x values aimed at the mutation; oracle: reflexive, symmetric, copies equal, == implies same verdicts and same alpha-normalised JSON",
+        "Generated-input search over element pairs differing in one keyword, literal, property attribute or element class.",
+        "Trusted: alpha normalisation (inline refs, drop class-derived titles); type-faithful JSON comparison.",
+        "DESIGN.md 4/C17",
+    ),
+    "C18": (
+        "Hypothesis generation of recipes over every constructor's full keyword set; round-trip oracle eval(repr(e)) == e plus AST check that exactly the non-default keywords appear",
+        "Generated-input search over all public constructors, keyword subsets, literal values equal to defaults / falsy / nested, bound and unbound properties.",
+        "Trusted: Python's ast module for the keyword inventory of the repr.",
+        "DESIGN.md 4/C18",
+    ),
+    "C19": (
+        "Hypothesis generation of models holding arbitrary element recipes under properties/items x accepted values; oracle: runtime value conforms to the evaluated annotation read as a type checker does",
+        "Generated-input search: annotation text is evaluated with typing names and the model's classes; a structural conformance judge checks every attribute value.",
+        "Trusted: the conformance judge (Any, None, bool<int<float tower, List, Union, Maybe, classes).",
+        "DESIGN.md 4/C19",
+    ),
+    "C20": (
+        "Hypothesis generation of supported schemas x enumerated schema positions x unsupported keywords; generated cyclic $ref documents; oracle: FeatureNotImplementedError with the part, clean parse without it",
+        "Generated-input search with position enumeration (every interpreted schema position of each generated schema) and reference cycles of length 1-8.",
+        "Trusted: position enumerator vlib/schemas.walk mirrors the positions statham interprets.",
+        "DESIGN.md 4/C20",
+    ),
 }
 
 NOT_YET = "check not built yet in this session; see DESIGN.md section 4 for the planned generated-input check"
